@@ -227,6 +227,17 @@ def r08_5(ctx):
         sep_ok = lead.startswith(default) and len(lead) > len(default) and not lead[len(default)].isdigit() and tail != "" and not tail[-1].isdigit()
         ok = has_name and sep_ok and before_transform
         obs = f"default prefix {default!r}, routine prefix {U(scoped.value)} set {'before' if before_transform else 'AFTER'} the body is transformed"
+    if scoped is not None:
+        unscoped = []
+        for q in paths_of(cs.node):
+            seen = False
+            for e in q.events:
+                if e.kind == "store" and isinstance(e.node, ast.Attribute) and e.node.attr in scope_attrs:
+                    seen = True
+                elif e.kind == "call" and isinstance(e.node, ast.Call) and call_tail(e.node) == "transform" and not seen:
+                    unscoped.append(q.guard_text()[:80] or "unconditional")
+        ctx.check("the per-routine prefix is set on every path that transforms a body", not unscoped, "set before transform(...) on every path",
+                  f"body transformed with the default prefix when: {sorted(set(unscoped))[:2]}" if unscoped else "ok", fn_where(idx, cs))
     ctx.check("temporary names of a routine body and of its callers cannot coincide", ok,
               "a per-routine component in the name (set before the body is transformed, separated from the counter and from the default prefix by a non-digit)", obs, fn_where(idx, rh))
 
@@ -268,6 +279,31 @@ def r08_6(ctx):
             ctx.check(f"prologue for body `{code}`", got == exp and ok_wrap and len(outs) == 1, f"declares {exp}, body wrapped in braces", f"declares {got}", fn_where(idx, fi))
 
 
+def c_type_table(ctx):
+    """the C type names of declarations, parameters and return types denote the C types: sign and width by the spelling (intN_t / uintN_t,
+    sizeN[su]_t with N in bytes, int, unsigned), also behind a qualifier"""
+    idx = get_index(ctx.env)
+    ft = idx.func("get_value_type_by_c_type")
+    table = {"int": (True, 32), "unsigned": (False, 32)}
+    for w in (8, 16, 32, 64):
+        table[f"int{w}_t"] = (True, w)
+        table[f"uint{w}_t"] = (False, w)
+        table[f"size{w // 8}s_t"] = (True, w)
+        table[f"size{w // 8}u_t"] = (False, w)
+    for t in ("uint16_t", "int32_t", "uint64_t", "int8_t"):
+        table["const " + t] = table[t]
+    for t, exp in table.items():
+        outs = Interp(idx).explore(lambda i, t=t: i.call_function(ft, [t]))
+        obs = {("RAISE" if o.kind == "raise" else (o.value.fields.get("_signed"), o.value.fields.get("_bit_width"), tuple(sorted(o.value.fields["group"].members)))) for o in outs}
+        ctx.check(f"C type {t}", obs == {(exp[0], exp[1], ("PURE",))}, str(exp), str(sorted(map(str, obs))), fn_where(idx, ft))
+    for t, grp in (("HexOp", "EXTERNAL"), ("const HexOp *", "EXTERNAL"), ("HexInsnPktBundle *", "EXTERNAL"), ("HexRegField", "EXTERNAL"), ("void", "VOID")):
+        outs = Interp(idx).explore(lambda i, t=t: i.call_function(ft, [t]))
+        obs = {("RAISE" if o.kind == "raise" else tuple(sorted(o.value.fields["group"].members))) for o in outs}
+        ctx.check(f"C type {t}", obs == {(grp,)}, grp, str(sorted(map(str, obs))), fn_where(idx, ft))
+    outs = Interp(idx).explore(lambda i: i.call_function(ft, ["struct foo"]))
+    ctx.check("unknown C type rejected", all(o.kind == "raise" for o in outs), "raises", str([outcome_text(o)[:30] for o in outs]), fn_where(idx, ft))
+
+
 @rule("R08.7", "C08", "registration wiring: parameters, return type, macros and registry reach the routine's transformer; the result is stored under its name and published", min_instances=8)
 def r08_7(ctx):
     idx = get_index(ctx.env)
@@ -275,7 +311,9 @@ def r08_7(ctx):
     w = fn_where(idx, cs)
     ps = [p for p in paths_of(cs.node) if p.outcome == "return"]
     main = [p for p in ps if not any(pol and "in self.sub_routines" in U(g) for g, pol in p.guards)]
-    ctx.need(len(main) == 1, f"compile_sub_routine: expected one compiling path, found {len(main)}")
+    ctx.need(len(main) >= 1, "compile_sub_routine: no compiling path")
+    ctx.check("compile_sub_routine compiles every routine alike (one path from the body text to the routine object)", len(main) == 1, "one compiling path",
+              f"{len(main)} paths, split by: {sorted({U(g)[:60] for q in main for g, _ in q.guards if 'in self.sub_routines' not in U(g)})[:3]}", w)
     p = main[0]
     v = p.value
     ctx.check("compile_sub_routine returns SubRoutine(name, ret_type, params, compiled body)", isinstance(v, ast.Call) and call_name(v) == "SubRoutine" and [U(a)[:40] for a in v.args][:1] == ["name"] and U(v.args[1]) == "get_value_type_by_c_type(return_type)"
@@ -301,20 +339,7 @@ def r08_7(ctx):
     evs = [U(n) for n in ast.walk(ad.node) if isinstance(n, (ast.Assign, ast.Expr))]
     ok = any(e.startswith("self.sub_routines[name] = sub_routine") for e in evs) and any("self.transformer.update_sub_routines(self.sub_routines)" in e for e in evs) and any("self.compile_sub_routine(name, ret_type, params, body)" in e for e in evs)
     ctx.check("add_sub_routine stores the routine under its name and publishes the registry", ok, "sub_routines[name] = compile_sub_routine(...); transformer.update_sub_routines(...)", str(evs)[:200], fn_where(idx, ad))
-    # C type table
-    ft = idx.func("get_value_type_by_c_type")
-    table = {"int": (True, 32), "unsigned": (False, 32), "int8_t": (True, 8), "uint8_t": (False, 8), "int16_t": (True, 16), "uint16_t": (False, 16), "int32_t": (True, 32), "uint32_t": (False, 32),
-             "int64_t": (True, 64), "uint64_t": (False, 64), "size4u_t": (False, 32), "size8s_t": (True, 64), "size1u_t": (False, 8), "size2s_t": (True, 16)}
-    for t, exp in table.items():
-        outs = Interp(idx).explore(lambda i, t=t: i.call_function(ft, [t]))
-        obs = {("RAISE" if o.kind == "raise" else (o.value.fields.get("_signed"), o.value.fields.get("_bit_width"), tuple(sorted(o.value.fields["group"].members)))) for o in outs}
-        ctx.check(f"C type {t}", obs == {(exp[0], exp[1], ("PURE",))}, str(exp), str(sorted(map(str, obs))), fn_where(idx, ft))
-    for t, grp in (("HexOp", "EXTERNAL"), ("const HexOp *", "EXTERNAL"), ("HexInsnPktBundle *", "EXTERNAL"), ("HexRegField", "EXTERNAL"), ("void", "VOID")):
-        outs = Interp(idx).explore(lambda i, t=t: i.call_function(ft, [t]))
-        obs = {("RAISE" if o.kind == "raise" else tuple(sorted(o.value.fields["group"].members))) for o in outs}
-        ctx.check(f"C type {t}", obs == {(grp,)}, grp, str(sorted(map(str, obs))), fn_where(idx, ft))
-    outs = Interp(idx).explore(lambda i: i.call_function(ft, ["struct foo"]))
-    ctx.check("unknown C type rejected", all(o.kind == "raise" for o in outs), "raises", str([outcome_text(o)[:30] for o in outs]), fn_where(idx, ft))
+    c_type_table(ctx)
     fs = idx.func("split_var_decl")
     for decl, exp in (("uint32_t t", ("uint32_t", "t")), ("const HexOp *RxV", ("const HexOp *", "RxV")), ("HexInsnPktBundle *bundle", ("HexInsnPktBundle *", "bundle")), ("int n", ("int", "n"))):
         outs = Interp(idx).explore(lambda i, decl=decl: i.call_function(fs, [decl]))
@@ -337,3 +362,27 @@ def r08_9(ctx):
     pending_effect_placement(ctx)
     op_list_completeness(ctx)
     r06_1(ctx)
+
+
+@rule("R08.10", "C08", "a routine's parameters have exactly the declared types (no promotion of narrow parameters), and the literals of its body are typed by their suffix in either spelling", min_instances=30)
+def r08_10(ctx):
+    from .c09 import small_literal_typing
+
+    idx = get_index(ctx.env)
+    fi = idx.resolve_method("Parameter", "__init__")
+    ctx.need(fi is not None, "Parameter.__init__ not found")
+    for signed in (True, False):
+        for w in (8, 16, 32, 64):
+            for groups in (("PURE",), ("PURE", "CONST")):
+                box = {}
+
+                def once(i, signed=signed, w=w, groups=groups):
+                    vt = mk_vt("tp", signed, w, groups)
+                    o = AObj("Parameter", {}, label="p")
+                    box["vt"] = vt
+                    i.call_function(fi, ["p", vt], self_obj=o)
+                    return o.fields.get("value_type")
+                outs = Interp(idx).explore(once)
+                got = sorted({(o.value.fields.get("_signed"), o.value.fields.get("_bit_width")) if o.kind == "return" and isinstance(o.value, AObj) else ("RAISE",) for o in outs})
+                ctx.check(f"Parameter of type {'s' if signed else 'u'}{w}{' const' if 'CONST' in groups else ''}", got == [(signed, w)], str((signed, w)), str(got), fn_where(idx, fi), nontrivial=(w < 32))
+    small_literal_typing(ctx)
